@@ -11,14 +11,14 @@ import (
 // whitespace-normalised source text of the small pure predicates (so that any edit to them
 // breaks the Tie and sends the check into search mode).
 
-type fnRef struct {
+type pdFnRef struct {
 	file, recv, name, lean string
 	text                   bool // also pin the normalised body text
 }
 
-// findFuncG is findFunc that also understands receivers with several type parameters
+// pdFindFunc is findFunc that also understands receivers with several type parameters
 // (`func (td Differ[K, O]) next`).
-func findFuncG(f *ast.File, recv, name string) *ast.FuncDecl {
+func pdFindFunc(f *ast.File, recv, name string) *ast.FuncDecl {
 	for _, d := range f.Decls {
 		fd, ok := d.(*ast.FuncDecl)
 		if !ok || fd.Name.Name != name {
@@ -47,8 +47,8 @@ func findFuncG(f *ast.File, recv, name string) *ast.FuncDecl {
 	return nil
 }
 
-// normWS drops // comments and collapses white space.
-func normWS(s string) string {
+// pdNormWS drops // comments and collapses white space.
+func pdNormWS(s string) string {
 	var lines []string
 	for _, l := range strings.Split(s, "\n") {
 		if i := strings.Index(l, "//"); i >= 0 {
@@ -59,19 +59,19 @@ func normWS(s string) string {
 	return strings.Join(strings.Fields(strings.Join(lines, " ")), " ")
 }
 
-func emitFns(c *ctx, refs []fnRef) error {
+func pdEmitFns(c *ctx, refs []pdFnRef) error {
 	for _, r := range refs {
 		f, err := c.file(r.file)
 		if err != nil {
 			return err
 		}
-		fd := findFuncG(f, r.recv, r.name)
+		fd := pdFindFunc(f, r.recv, r.name)
 		if fd == nil || fd.Body == nil {
 			return fmt.Errorf("%s: func %s.%s not found", r.file, r.recv, r.name)
 		}
 		c.defStringList(r.lean+"Calls", callNames(fd.Body))
 		if r.text {
-			c.defString(r.lean+"Src", normWS(c.src(r.file, fd.Body)))
+			c.defString(r.lean+"Src", pdNormWS(c.src(r.file, fd.Body)))
 		}
 	}
 	return nil
@@ -96,7 +96,7 @@ func init() {
 			}
 			c.defNat(n, v)
 		}
-		return emitFns(c, []fnRef{
+		return pdEmitFns(c, []pdFnRef{
 			{diff, "Differ", "next", "next", true},
 			{diff, "", "skipCommon", "skipCommon", true},
 			{diff, "", "skipCommonParents", "skipCommonParents", true},
